@@ -2,7 +2,7 @@
     the compiler code: which tket op each Python function denotes, in which order it takes
     its qubits, how angles reach the op, and what the composite functions expand to.
     (No wiring language, no compiler classes here.)  No proofs in this file. *)
-From Coq Require Import List String Bool Floats.
+From Coq Require Import List String Bool PrimFloat.
 From V.C20 Require Import Model.
 Import ListNotations.
 Open Scope string_scope.
